@@ -10,7 +10,7 @@ HOOK_COMMITS = subprocess.run(
 # id -> (technique, level text, level note, design ref)
 LOOP_NOTE = "Trusts the cfg(divan_verif) hook layer: the scripted timestamp counter only replaces the source of TSC readings, precision/overheads are supplied instead of measured, crate-private results are copied out unchanged. T > 1 runs use real threads with per-thread scripted clocks (per-thread logs are deterministic; cross-thread interleavings are C08's domain)."
 
-TWIN_NOTE = "Trusts the twin registry: entries are built from the public __private structs exactly as the macros emit them and pushed through the public EntryList::push; the real Divan::main / run_action runs unchanged (positive filters, sort, list actions and the TSC timer are set through a cfg(divan_verif) hook because only the CLI can set them; the CLI itself is exercised in a child process through divan::main()). Benchmark bodies log every invocation."
+TWIN_NOTE = "Trusts the twin registry: entries are built from the public __private structs exactly as the macros emit them and pushed through the public EntryList::push; the real Divan::main / run_action runs unchanged (positive filters, sort, list actions and the TSC timer are set through a cfg(divan_verif) hook because only the CLI can set them; the CLI itself is exercised in a child process through divan::main() and, with the argument list supplied through the cfg(divan_verif) hook __verif::cli, in-process through the same clap command and config_with_args()). Benchmark bodies log every invocation."
 
 CHECKS = {
     "C01": (
@@ -24,12 +24,12 @@ CHECKS = {
         LOOP_NOTE + " Program order only: instruction reordering across the fences is invisible to any test.",
         "DESIGN.md section 4, C02"),
     "C03": (
-        "property-based testing: closed form s*T*ceil(n/T) vs per-thread call counts, recorded samples, Stats and printed cells; the same closed form over generated crates run through main(), run_benches(), test_benches() and through builder calls followed by config_with_args() over real flags and DIVAN_* variables (child process)",
+        "property-based testing: closed form s*T*ceil(n/T) vs per-thread call counts, recorded samples, Stats and printed cells; the same closed form over generated crates run through main(), run_benches(), test_benches() and through builder calls followed by config_with_args() over real flags and DIVAN_* variables (child process); the builder + flags + variables route also with the command line parsed in-process by the real clap command (hook __verif::cli), ten times the cases",
         "Generated (n, s, T, mode, entry, shape, max_time in {unset,0}) with n biased to {0,1,T-1,T,T+1,default}; the per-thread number of timed sections and calls, the recorded samples, Stats.sample_count/iter_count and the printed samples/iters cells must equal the closed form of the statement. Exploration only.",
         LOOP_NOTE,
         "DESIGN.md section 4, C03"),
     "C04": (
-        "property-based testing: trace checker replaying the stopping rule over the logged clock readings of generated cost histories (ties on the budgets generated on purpose)",
+        "property-based testing: trace checker replaying the stopping rule over the logged clock readings of generated cost histories (ties on the budgets generated on purpose); budget routes: min_time / max_time / skip_ext_time set by attribute, group, builder call before config_with_args(), flag or DIVAN_* variable must reach the loop unchanged and a zero max_time from any of them means no sample (in-process command line, C15's reference resolution restricted to the time fields and the call count)",
         "Generated option sets and cost scripts with budgets placed relative to the per-round cost; the checker recomputes elapsed time after every round from the logged readings exactly as the statement defines it (initial start .. latest end, or sum of slowest timed sections with the 1 ns floor) and requires the executed number of rounds to be the smallest one satisfying the rule, max_time having priority. Exploration only.",
         LOOP_NOTE,
         "DESIGN.md section 4, C04"),
@@ -64,7 +64,7 @@ CHECKS = {
         "Trusts the cfg(divan_verif) accessor (copies the thread-local tally). An equal-size realloc may count as grow or shrink.",
         "DESIGN.md section 4, C10"),
     "C11": (
-        "property-based testing (proptest): floor-division validity predicate in checked u128, metamorphic laws (monotone, additive within 1 ps, shift-invariant), exact Duration conversion, virtual-clock precision measurement",
+        "property-based testing (proptest): floor-division validity predicate in checked u128, metamorphic laws (monotone, additive within 1 ps, shift-invariant), exact Duration conversion, virtual-clock precision measurement; Timestamp::duration_since through the tagged enum on OS timestamps (exact nanoseconds x 1000 for spans up to 2^33 s) and TSC timestamps; the cached Timer::precision() of both timer kinds queried in either order in a fresh child process (scripted TSC clock)",
         "Generated-input search over (a,b,f) in u64 x u64 x (u64\\{0}) with a boundary-heavy mixture, all Durations, and scripted uniform-step clocks; the oracle is a validity predicate q*f <= (b-a)*10^12 < (q+1)*f evaluated in checked 128-bit arithmetic, independent of the implementation's expression. Exploration, not proof: absence is not established, but every boundary class named in the property is generated thousands of times per run.",
         "Trusts the cfg(divan_verif) wrappers (they call the production functions unchanged) and the scripted TSC reader for the precision clause (precondition: a non-zero one-step difference is observable at least once per 50 reading pairs).",
         "DESIGN.md section 4, C11"),
@@ -74,22 +74,22 @@ CHECKS = {
         "A generated program that does not compile is a generator fault (exit 2). Link order on Mach-O / COFF is not exercised. " + TWIN_NOTE,
         "DESIGN.md section 4, C12 and E3"),
     "C13": (
-        "property-based testing (model-based): reference selection rule (regex crate as matcher) vs executed cases and printed nodes of the real runner over generated entry trees and filter sets; in-process and through real command lines; FilterSet::is_match differential",
+        "property-based testing (model-based): reference selection rule (regex crate as matcher) vs executed cases and printed nodes of the real runner over generated entry trees and filter sets; in-process and through real command lines; FilterSet::is_match differential; the command-line route also parsed in-process (hook __verif::cli) with ten times the cases and a libFuzzer target",
         "Generated crates (module trees, groups with custom names, args, types, consts, duplicate / non-ASCII / '::'-containing names, random registration order) and filter sets built from the tree; the set of benchmark bodies invoked and the multiset of nodes printed by the real runner (parsed back) must equal the reference selection: selected iff no skip matches and (no positive or some positive matches), per argument case, ancestors shown iff a selected case lies below. Also through --skip / positional / --exact on a real command line, and FilterSet::is_match against the reference on generated paths. Exploration only.",
         TWIN_NOTE,
         "DESIGN.md section 4, C13"),
     "C14": (
-        "property-based testing (differential + model): empty invocation log under every list action; terse lines = cases executed by a test run with the same filters/flags; --exact round trip",
+        "property-based testing (differential + model): empty invocation log under every list action; terse lines = cases executed by a test run with the same filters/flags; --exact round trip; the command-line round trip also with the command line parsed in-process (hook __verif::cli), with a libFuzzer target",
         "Generated crates with ignore set directly, inherited, overridden to false inside an ignored group, x filter sets x {none, --ignored, --include-ignored}: --list, --list --format terse (NEXTEST=1) and Divan::list_benches() must invoke nothing; the multiset of terse lines must equal the paths of exactly the cases a test run executes (which itself must match the reference ignore/selection rule); listed unique paths fed back as the only --exact filter select exactly that case. Found and fixed two defects (list_benches ran everything; terse listing ignored inherited ignore). Exploration only.",
         TWIN_NOTE,
         "DESIGN.md section 4, C14"),
     "C15": (
-        "small-scope enumeration of the presence lattice + property-based testing: per-field precedence model vs the effective options observed inside the benchmark body and behaviour (calls, thread branches, skipped benchmarks); builder, CLI flags and DIVAN_* environment",
+        "small-scope enumeration of the presence lattice + property-based testing: per-field precedence model vs the effective options observed inside the benchmark body and behaviour (calls, thread branches, skipped benchmarks); builder, CLI flags and DIVAN_* environment; flags and DIVAN_* variables also parsed in-process (hook __verif::cli); builder calls before config_with_args() as the lowest run-time source (flag over variable over builder, per field)",
         "For each of the 11 option fields all 2^5 presence patterns over (runner, benchmark, 3 nested groups) are enumerated (exhaustive for that sub-space); random trees set every field independently at every level. The effective BenchOptions and thread count each body is handed, the counters its Bencher holds after Bencher::counter / input_counter, the number of calls and which benchmarks are skipped must match: runner over benchmark over innermost..outermost group, per field; 0 threads = available parallelism, sorted, de-duplicated. The runner level is set by builder calls in-process and by flags, environment variables and both (flags win) in a child process. Exploration only.",
         TWIN_NOTE,
         "DESIGN.md section 4, C15"),
     "C16": (
-        "property-based testing: reference natural/numeric comparator and order laws on the real comparators; printed sibling and argument order of generated trees judged by a reference comparator (non-decreasing), --sortr exact reverse for strict orders, permutation",
+        "property-based testing: reference natural/numeric comparator and order laws on the real comparators; printed sibling and argument order of generated trees judged by a reference comparator (non-decreasing), --sortr exact reverse for strict orders, permutation; the tree order also requested through --sort / --sortr, DIVAN_SORT / DIVAN_SORTR and a flag over the variable of the same option (in-process command line)",
         "Pure level: natural_cmp equals a reference (digit runs by value, else bytes) and is a total preorder on generated names; argument lists (all-integer incl. negatives and 128-bit, all-float, all-string) sorted by the real comparator must be a permutation in the documented order for 3 attributes x 2 directions; mixed lists only permutation / no panic. Tree level: the real runner prints generated sibling sets (leaves / groups, custom names, generic consts, location ties on purpose); the parsed order must be consistent with the reference comparator and --sortr the exact reverse when keys are strict. Found and fixed integer arguments not being compared by value; a panic on long mixed lists is a known finding. Exploration only.",
         TWIN_NOTE + " Distinct entries at the very same file:line:col have no documented relative position (any order accepted).",
         "DESIGN.md section 4, C16"),
@@ -109,7 +109,7 @@ CHECKS = {
         LOOP_NOTE + " u32 overflow of the doubling is out of reach.",
         "DESIGN.md section 4, C19"),
     "C20": (
-        "property-based testing with a strict output parser: the captured stdout of the real runner is parsed back (grammar prefix* glyph name cells / continuation rows); parsed tree = expected tree, cells = production-formatted reference values under a scripted clock",
+        "property-based testing with a strict output parser: the captured stdout of the real runner is parsed back (grammar prefix* glyph name cells / continuation rows); parsed tree = expected tree, cells = production-formatted reference values under a scripted clock; continuation rows of one leaf: injected statistics over every combination of present / absent counter rows and allocation sections, printed rows compared with the rows the computed statistics call for",
         "Generated crates x {bench, test, list} x ignore flags x filters x runner options x byte format: the real output must parse with a strict parser (│ exactly under ancestors with later siblings, ╰─ exactly on last children, continuation rows carrying the bar iff their leaf is not last), show exactly the selected groups, benchmarks, argument cases and t=N branches once each, mark skipped benchmarks (ignored) without running them, and in bench mode every statistics row must show the closed-form fastest/slowest/median/mean/samples/iters of a scripted clock whose k-th sample lasts 100+10*(k mod 3) ns, with one throughput row per effective counter computed from that column's time. Exploration only.",
         TWIN_NOTE + " Sibling order is judged by C16.",
         "DESIGN.md section 4, C20"),
